@@ -194,6 +194,12 @@ fn render(c: &Case) -> (String, Option<String>, Expect, &'static [&'static str])
             let e = if c.conv % 4 == 3 { None } else { Some(exact) };
             (yaml_quote(&s), Some(s), Expect::Minutes(e), TIME_KEYS)
         }
+        // a {prep, cook} mapping belongs to `time` only: under a prep / cook key it is not a documented form
+        Spec::BadTime(i) if *i as usize % 11 == 10 => {
+            const PART_KEYS: &[&str] = &["prep time", "cook time", "prep_time", "cook_time"];
+            let y = ["{prep: 10}", "{cook: 20 min}", "{prep: 10, cook: 20}", "{}"][*i as usize / 11 % 4];
+            (y.to_string(), None, Expect::Minutes(None), PART_KEYS)
+        }
         // mappings and lists: YAML only
         Spec::BadTime(i) if *i as usize % (BAD_TIMES.len() + BAD_TIME_YAML.len()) >= BAD_TIMES.len() => {
             let y = BAD_TIME_YAML[*i as usize % (BAD_TIMES.len() + BAD_TIME_YAML.len()) - BAD_TIMES.len()];
